@@ -6,6 +6,7 @@ mod c03;
 mod c04;
 mod c09;
 mod c10;
+mod c11;
 mod ctx;
 mod docs;
 mod obs;
@@ -31,6 +32,7 @@ fn registry(id: &str) -> Option<Box<dyn Check>> {
         "C04" => Some(Box::new(c04::C04::new())),
         "C09" => Some(Box::new(c09::C09::new())),
         "C10" => Some(Box::new(c10::C10)),
+        "C11" => Some(Box::new(c11::C11)),
         _ => None,
     }
 }
